@@ -318,6 +318,17 @@ def run_case(case, ctx):
         j = int(np.argmax(np.abs(lqn - lp) * ok))
         ctx.fail("sample-vs-evaluate", f"sample_and_log_prob returned log q={lqn[j]:.8g} for a point whose log_prob is {lp[j]:.8g}", case,
                  diff=float(abs(lqn[j] - lp[j])))
+    # (b') the same pair asked for in another output namespace (the xp argument of the sampling methods)
+    for out_ns in ("numpy", "torch" if case["backend"] == "flowjax" else "jax"):
+        ox, olq = flow.sample_and_log_prob(64, xp=env.xp_of(out_ns))
+        oxn, olqn = env.to_np(ox).astype(np.float64), env.to_np(olq).astype(np.float64)
+        oref = env.to_np(flow.log_prob(env.to_np(ox))).astype(np.float64)
+        ou = (oxn - lo) / (hi - lo) if case["bounded"] else np.full_like(oxn, 0.5)
+        ok3 = (np.minimum(ou, 1 - ou) > edge).all(-1) & np.isfinite(oref) & np.isfinite(olqn)
+        if (ok3 & (np.abs(olqn - oref) > tol * (1 + np.abs(oref)))).any():
+            j = int(np.argmax(np.abs(olqn - oref) * ok3))
+            ctx.fail("sample-vs-evaluate:xp", f"sample_and_log_prob(xp={out_ns}) returned log q={olqn[j]:.8g} for a point whose log_prob is {oref[j]:.8g}", case,
+                     out_ns=out_ns)
     # (e) Aspire.sample_flow
     if a is not None:
         s = a.sample_flow(16)
